@@ -431,4 +431,107 @@ def cleanFetch (n : Nat) (s : VSt) (t : Tid) : VSt × List Ev :=
   | none => (s, [])
   | some (s1, _) => runAlone n t (fuelFor n s) s1 []
 
+/-! ### the Go calls the program points stand for
+
+The lists below are the watched calls (file-system effects, lock operations, registry calls,
+single-flight entries) and hook points of each transcribed function IN SOURCE ORDER, written
+next to the program points that model them.  `Bridge/C16.lean` proves that the lists
+regenerated from /repo on every run are equal to these. -/
+
+def goFetch : List String :=
+  [ "c.downloadDir",                    -- fStatDir, fStatMark
+    "c.downloadZip",                    -- zEnter … zUnlock
+    "hook:fetch.zip-ready",
+    "c.lockVersion",                    -- lLock
+    "hook:fetch.locked",
+    "defer unlock",                     -- fUnlock
+    "c.downloadDir",                    -- lStatDir, lStatMark (the re-check)
+    "os.ReadDir", "RemoveAll",          -- legacy `.tmp-` directories (nothing creates them; not modelled)
+    "RemoveAll",                        -- lRmAll
+    "hook:fetch.cleaned",
+    "os.MkdirAll", "robustio.WriteFile", -- lMark
+    "hook:fetch.partial-written",
+    "modzip.Unzip",                     -- uCheck, uMkdir, uCreate i, uWrite i
+    "RemoveAll", "os.Remove",           -- eRmAll, eUnmark (Unzip failed)
+    "hook:fetch.unzipped",
+    "os.Remove",                        -- fUnmark
+    "hook:fetch.partial-removed",
+    "makeDirsReadOnly",                 -- fReadOnly
+    "hook:fetch.done" ]
+
+def goFetchFromCache : List String := ["c.downloadDir"]   -- cStatDir, cStatMark
+def goDownloadDir : List String := ["os.Stat", "os.Stat"]  -- dir, then the marker
+
+def goDownloadZip : List String :=
+  [ "c.downloadZipCache.Do",            -- zEnter
+    "os.Stat",                          -- zStat1
+    "c.lockVersion",                    -- zLock
+    "defer unlock",                     -- zUnlock
+    "c.downloadZip1" ]
+
+def goDownloadZip1 : List String :=
+  [ "os.Stat",                          -- zStat2
+    "os.MkdirAll",
+    "filepath.Glob", "os.Remove",       -- zClean
+    "tempFile",                         -- zCreate
+    "hook:zip.tmp-created",
+    "f.Close", "os.Remove",             -- zFail (deferred, on error)
+    "c.reg.GetModule", "m.GetZip",      -- zGet
+    "io.Copy",                          -- zCopy
+    "hook:zip.copied",
+    "f.Close", "os.Rename",             -- zRename
+    "hook:zip.renamed" ]
+
+def goUnzip : List String :=
+  [ "os.ReadDir", "os.Open", "defer f.Close", "CheckZip",   -- uCheck
+    "os.MkdirAll",                      -- uMkdir
+    "hook:unzip.dir-created",
+    "os.MkdirAll", "os.OpenFile",       -- uCreate i
+    "hook:unzip.file-created",
+    "zf.Open", "w.Close", "io.Copy", "w.Close", "w.Close",   -- uWrite i
+    "hook:unzip.file-written" ]
+
+def goModFile : List String := ["c.modFileCache.Do", "c.fetchModFileData"]   -- mEnter
+def goFetchModFileData : List String :=
+  [ "c.readDiskModFile",                -- mRead1
+    "c.lockVersion",                    -- mLock
+    "defer unlock",                     -- mUnlock
+    "c.readDiskModFile",                -- mRead2
+    "c.downloadModFile1" ]
+def goDownloadModFile1 : List String :=
+  [ "c.reg.GetModule", "m.ModuleFile",  -- mGet
+    "c.writeDiskModFile" ]
+def goReadDiskCache : List String := ["robustio.ReadFile"]
+def goWriteDiskCache : List String :=
+  [ "os.MkdirAll", "tempFile",          -- mCreate
+    "hook:disk.tmp-created",
+    "f.Close", "os.Remove",             -- mFail (deferred, on error)
+    "f.Write", "f.Close",               -- mWrite
+    "hook:disk.written",
+    "robustio.Rename",                  -- mRename
+    "hook:disk.renamed" ]
+def goLockVersion : List String := ["os.MkdirAll", "lockedfile.MutexAt(path).Lock"]
+
+/-- hooks fired by thread `t` running alone -/
+def hooksAlone (n : Nat) (t : Tid) : Nat → VSt → List String → List String
+  | 0, _, hs => hs
+  | fuel + 1, s, hs =>
+    match s.pc t with
+    | .idle => hs
+    | _ =>
+      match next n s t (choiceFor s t .none false) with
+      | none => hs
+      | some (s', o) => hooksAlone n t fuel s' (match o.hook with | some h => hs ++ [h] | none => hs)
+
+/-- the hook points of a clean `start` call on the empty cache, in the model's step order -/
+def coldHooks (n : Nat) (start : Start) : List String :=
+  match next n VSt.init (0, 0) { start := start } with
+  | none => []
+  | some (s1, _) => hooksAlone n (0, 0) (fuelFor n VSt.init) s1 []
+
+/-- the same sequence assembled from the hook points of downloadZip1 (z), Fetch (f) and
+Unzip (u) as they appear in the source: Unzip's two per-file hooks repeat n times -/
+def composeHooks (n : Nat) (z f u : List String) : List String :=
+  z ++ f.take 4 ++ u.take 1 ++ (List.replicate n (u.drop 1)).flatten ++ f.drop 4
+
 end CueVerif.ModCache
